@@ -8,7 +8,7 @@ cursor `(offset, line, column)` starting at `(0, 1, 1)`, moved only by
 the single error constructor `error(kind)` reports the cursor.  The 2 274-line validator's decisions
 (which operation it performs where) are NOT modelled.  Import-free.
 -/
-namespace SV.YamlPos
+namespace SV.YamlVPos
 
 structure Cursor where
   off : Nat
@@ -47,4 +47,4 @@ def run (bs : List UInt8) : Cursor → List Op → Option Cursor
   | c, [] => some c
   | c, op :: ops => (step bs c op).bind fun c' => run bs c' ops
 
-end SV.YamlPos
+end SV.YamlVPos
